@@ -174,6 +174,25 @@ def run_cuts(ctx, st, items, show_unprocessed, full_session, spec, case):
         if sorted(i['conn'] for i in tail_items if i['kind'] == 'notice' and i['what'] == 'Closed') != want_closed or len(tail_items) != len(want_closed):
             ctx.violation('prefix-tail', 'input cut after %d lines: after the prefix come %r, expected Closed notices for %r' % (p, tail[:5], want_closed), dict(case, cut_lines=p))
             return
+    # the user interrupts (Ctrl-C) while the tool waits for the next line: same as the input stopping there
+    for p in rng.sample(cuts, min(6, len(cuts))):
+        def interrupt(sess, i, p=p):
+            if i == p:
+                raise KeyboardInterrupt()
+        s = Session(show_unprocessed=show_unprocessed)
+        try:
+            s.feed(ls, before_read=interrupt)
+        except KeyboardInterrupt:
+            ctx.violation('interrupt-escapes', 'KeyboardInterrupt while reading line %d escaped the parser' % p, dict(case, cut_lines=p))
+            return
+        got = out_items_plain(s)
+        ctx.count('interrupt_points')
+        npre = sum(owed[:p])
+        opened = {x['ci'] for k, x in items[:p] if k == 'msg'}
+        tail_items = [outline.parse_line(t) for t in got[npre:]]
+        if got[:npre] != full[:npre] or sorted(i['conn'] for i in tail_items if i['kind'] == 'notice' and i['what'] == 'Closed') != sorted(st['names'][ci] for ci in opened) or len(tail_items) != len(opened):
+            ctx.violation('prefix-after-interrupt', 'interrupted before line %d: output is not the prefix of the full output followed by the Closed notices: %r' % (p, got[npre:][:4]), dict(case, cut_lines=p))
+            return
     # mid-line cuts of a last line (several lines, several positions)
     for _ in range(6):
         p = rng.randrange(n)
